@@ -238,3 +238,98 @@ MUTANTS = [
     dict(name="constant field: result left in tesla metre", units=["uniform_Bz_vector_potential / ConstantField"], edits=[(CF, "    return A.to(f\"{field_units} * {length_units}\").magnitude", "    return A.magnitude")]),
     dict(name="constant field: x and y swapped", units=["uniform_Bz_vector_potential / ConstantField"], edits=[(CF, "positions = np.array([x.squeeze(), y.squeeze(), z.squeeze()]).T", "positions = np.array([y.squeeze(), x.squeeze(), z.squeeze()]).T")]),
 ]
+
+
+# ------------------------------------------------------------------------------------------------------------------ current loop source
+
+LP = "tdgl.sources.loop"
+
+
+def run_loop_source(mutate=None, prefixes=("C20.", "C08.")):
+    """tdgl.sources.loop: loop_vector_potential hands current_loop_vector_potential the evaluation points as (x, y, z) rows and the loop's centre, radius,
+    current and units by the right names, and returns the result converted to the user's field x length units as bare numbers; CurrentLoop builds a
+    (time-independent) parameter around it with every argument under its own name.  The closed form itself is the contract of
+    current_loop_vector_potential (checks/c20.py)."""
+    from checks import c07
+    c07._patch_symarray()
+    _patch_q()
+    ureg = pintmodel.make_registry()
+    mut = [(o, n) for (m, o, n) in (mutate or []) if m == LP]
+    rb = {"np": NPF}
+    rb.update({k: v for k, v in BUILTINS.items() if k != "float"})
+    L = instrument.load(LP, rebind=rb, mutate=mut, vc=vcm.VC())
+
+    def body():
+        c = sym.ctx()
+        c.record_prefixes = tuple(prefixes)
+        R = z3.Real
+        ureg = pintmodel.make_registry()
+        ell = ureg.user_unit("LEN", pintmodel.LENGTH, "ell")
+        phi = ureg.user_unit("FIELD", pintmodel.FIELD, "phi")
+        n = SI(z3.Int("n_points"))
+        assume(n >= 1)
+        xs, ys, zs = SymArray.input("x", (n,)), SymArray.input("y", (n,)), SymArray.input("z", (n,))
+        i, k = SI(FreshInt("i")), SI(FreshInt("k"))
+        assume(i >= 0, i < n, k >= 0, k < 3)
+        seen = {}
+        Araw = SymArray.input("A_tesla_metre", (n, 3))
+        adims = tuple(a + b for a, b in zip(pintmodel.FIELD, pintmodel.LENGTH))
+
+        def clvp(positions, **kw):
+            seen.update(positions=positions, kw=kw)
+            return pintmodel.Q(Araw, adims, SR(1))
+        L.ns["current_loop_vector_potential"] = clvp
+        cur, rad = SR(R("current")), SR(R("radius"))
+        centre = (SR(R("cx")), SR(R("cy")), SR(R("cz")))
+        out = L["loop_vector_potential"](xs, ys, zs, current=cur, radius=rad, center=centre, current_units="CUR", field_units="FIELD", length_units="LEN")
+        P = seen.get("positions")
+        okp = isinstance(P, SymArray) and P.ndim == 2
+        check("C20.loop_source.evaluation_points_are_x_y_z_rows", z3.BoolVal(False) if not okp else z3.And(sym.eq(P.shape[0], n), sym.eq(P.shape[1], 3),
+              sym.eq(P.at(i, SI(0)), xs.at(i)), sym.eq(P.at(i, SI(1)), ys.at(i)), sym.eq(P.at(i, SI(2)), zs.at(i))))
+        kw = seen.get("kw", {})
+        check("C20.loop_source.loop_described_by_its_own_centre_radius_current_and_units",
+              z3.BoolVal(kw.get("loop_center") is centre and kw.get("loop_radius") is rad and kw.get("current") is cur and kw.get("current_units") == "CUR" and kw.get("length_units") == "LEN"
+                         and set(kw) == {"loop_center", "loop_radius", "current", "current_units", "length_units"}), note=str(sorted(kw)))
+        oko = isinstance(out, SymArray) and out.ndim == 2
+        check("C08.loop_source.result_in_the_users_field_times_length_units", z3.BoolVal(False) if not oko else sym.eq(SR.lift(out.at(i, k)) * phi * ell, Araw.at(i, k)))
+        got = {}
+
+        class P_:
+            def __init__(self, func, time_dependent=False, **kw2):
+                got.update(func=func, time_dependent=time_dependent, kw=kw2)
+        L.ns["Parameter"] = P_
+        L["CurrentLoop"](current=cur, radius=rad, center=[centre[0], centre[1], centre[2]], current_units="CUR", field_units="FIELD", length_units="LEN")
+        k2 = got.get("kw", {})
+        check("C20.loop_source.parameter_carries_every_argument_under_its_own_name",
+              z3.BoolVal(got.get("func") is L["loop_vector_potential"] and not got.get("time_dependent") and k2.get("current") is cur and k2.get("radius") is rad
+                         and tuple(k2.get("center", ())) == centre and k2.get("current_units") == "CUR" and k2.get("field_units") == "FIELD" and k2.get("length_units") == "LEN"))
+    obls, n_ = explore(body)
+    return dict(obls=obls, paths=n_, sources=[L.info()], consistent=sym.consistent())
+
+
+MUTANTS_LOOP = [
+    dict(name="loop source: radius and current swapped", units=["sources.loop"], edits=[(LP, "        loop_radius=radius,\n        current=current,", "        loop_radius=current,\n        current=radius,")]),
+    dict(name="loop source: result left in tesla metre", units=["sources.loop"], edits=[(LP, "    return A.to(f\"{field_units} * {length_units}\").magnitude", "    return A.magnitude")]),
+    dict(name="loop source: default length units handed on", units=["sources.loop"], edits=[(LP, "        current_units=current_units,\n        length_units=length_units,\n    )\n    return A", "        current_units=current_units,\n    )\n    return A")]),
+    dict(name="loop source: y and x swapped", units=["sources.loop"], edits=[(LP, "positions = np.array([x.squeeze(), y.squeeze(), z.squeeze()]).T", "positions = np.array([y.squeeze(), x.squeeze(), z.squeeze()]).T")]),
+]
+
+
+def native_loop(seed=0):
+    """BOUNDED replay oracle: the CurrentLoop parameter against current_loop_vector_potential called directly, in two unit systems"""
+    import numpy as np
+    from tdgl.em import current_loop_vector_potential
+    from tdgl.sources import CurrentLoop
+    rng = np.random.default_rng(seed)
+    bad, n = [], 0
+    for lu, fu, cu in (("um", "mT", "uA"), ("nm", "uT", "mA")):
+        m = 7
+        x, y, z = rng.normal(size=m), rng.normal(size=m), rng.uniform(0.2, 1.0, size=m)
+        cur, rad, cen = float(rng.uniform(0.5, 3)), float(rng.uniform(0.3, 2)), tuple(float(v) for v in rng.normal(size=3) * 0.3)
+        p = CurrentLoop(current=cur, radius=rad, center=cen, current_units=cu, field_units=fu, length_units=lu)
+        got = np.asarray(p(x, y, z))
+        ref = current_loop_vector_potential(np.stack([x, y, z], axis=1), loop_center=cen, loop_radius=rad, current=cur, current_units=cu, length_units=lu).to(f"{fu} * {lu}").magnitude
+        n += 1
+        if got.shape != ref.shape or not np.allclose(got, ref, rtol=1e-12, atol=1e-300):
+            bad.append(dict(what="CurrentLoop parameter differs from current_loop_vector_potential of the same loop in the user's field x length units", length_units=lu, field_units=fu, current_units=cu))
+    return bad, n
